@@ -157,17 +157,17 @@ Qed.
 
 (* ---- handlers --------------------------------------------------------- *)
 (* A file whose content does not parse never yields other numbers, for every
-   method and whatever the shape predicates are; ValueError-class damage is
-   repaired (Fresh) exactly by the three methods that have a handler. *)
-Theorem fault_outcome : forall m right fits unp f,
+   method; ValueError-class damage is repaired (Fresh) exactly by the three
+   methods that have a handler. *)
+Theorem fault_outcome : forall m right sok f,
   is_err (parse f) = true ->
-  load_outcome m right fits unp f <> Different /\
+  load_outcome m right sok f <> Different /\
   (parse f = PErr PValue -> catches_value_error m = true ->
-     load_outcome m right fits unp f = Fresh /\ resaved m f = true) /\
+     load_outcome m right sok f = Fresh /\ resaved m f = true) /\
   (parse f <> PErr PValue \/ catches_value_error m = false ->
-     load_outcome m right fits unp f = Exception /\ resaved m f = false).
+     load_outcome m right sok f = Exception /\ resaved m f = false).
 Proof.
-  intros m right fits unp f He. unfold load_outcome, resaved.
+  intros m right sok f He. unfold load_outcome, resaved.
   destruct (parse f) as [b|e]; [discriminate|].
   split; [|split].
   - destruct e; destruct (catches_value_error m); discriminate.
@@ -178,21 +178,157 @@ Proof.
 Qed.
 
 (* every crash point of a save is such a fault *)
-Corollary crash_point_outcome : forall m right fits unp a k,
+Corollary crash_point_outcome : forall m right sok a k,
   wf_arr a -> hlen (shape a) / 256 < 256 -> k < length (serialize a) ->
-  load_outcome m right fits unp (firstn k (serialize a)) =
+  load_outcome m right sok (firstn k (serialize a)) =
     (if k =? 0 then Exception else if catches_value_error m then Fresh else Exception).
 Proof.
   intros. unfold load_outcome. rewrite truncation_detected by assumption.
   destruct (k =? 0); reflexivity.
 Qed.
 
-(* a valid file of the wrong shape: exception or fresh, provided the module's
-   shape checks reject it *)
-Theorem wrong_shape_outcome : forall m right fits unp f a,
-  parse f = POk a -> right a = false -> fits a = false ->
-  load_outcome m right fits unp f <> Different.
+(* a valid file of the wrong shape is ignored: the result is the fresh one *)
+Theorem wrong_shape_outcome : forall m right sok f a,
+  parse f = POk a -> sok a = false -> load_outcome m right sok f = Fresh.
 Proof.
-  intros m right fits unp f a P R F. unfold load_outcome. rewrite P, R, F.
-  destruct (unp a && catches_value_error m); discriminate.
+  intros m right sok f a P S. unfold load_outcome. rewrite P, S.
+  destruct (right a); reflexivity.
 Qed.
+
+(* ---- atomic save --------------------------------------------------------------- *)
+Lemma write_at_end : forall f c, write_at (length f) c f = f ++ c.
+Proof.
+  intros f c. pose proof (write_at_over f [] c) as H. rewrite app_nil_r in H. apply H. simpl. lia.
+Qed.
+
+(* the temp file after the truncation and the first writes *)
+Fixpoint run_temp (t : file) (ops : list aop) : file :=
+  match ops with
+  | [] => t
+  | ATrunc :: r => run_temp [] r
+  | AWrite off c :: r => run_temp (write_at off c t) r
+  | ARename :: r => run_temp t r
+  end.
+
+Lemma run_temp_writes : forall chunks t, run_temp t (awrite_ops (length t) chunks) = t ++ concat chunks.
+Proof.
+  induction chunks as [|c r IH]; intros t; simpl; [rewrite app_nil_r; reflexivity|].
+  rewrite write_at_end. replace (length t + length c) with (length (t ++ c)) by (rewrite app_length; reflexivity).
+  rewrite IH, <- app_assoc. reflexivity.
+Qed.
+
+Lemma run_temp_app : forall a b t, run_temp t (a ++ b) = run_temp (run_temp t a) b.
+Proof. induction a as [|[|off c|] a IH]; intros b t; simpl; auto. Qed.
+
+Lemma no_rename_in_writes : forall off chunks, ~ In ARename (awrite_ops off chunks).
+Proof.
+  intros off chunks. revert off. induction chunks as [|c r IH]; intros off H; simpl in H; [auto|].
+  destruct H as [H|H]; [discriminate|eapply IH; eauto].
+Qed.
+
+Section Atomic.
+  Variable a : arr.
+  Variable t0 : option file.          (* what the basis file was before (or None) *)
+  Let F := serialize a.
+
+  (* progress invariant of one writer *)
+  Definition proc_ok (p : aproc) : Prop :=
+    exists chunks done, concat chunks = F /\ awriter chunks = done ++ fst p /\
+                        (done = [] \/ snd p = run_temp [] done).
+
+  Definition target_ok (t : option file) : Prop := t = t0 \/ t = Some F.
+
+  Lemma rename_has_all : forall chunks done rest,
+    awriter chunks = done ++ ARename :: rest -> done = ATrunc :: awrite_ops 0 chunks /\ rest = [].
+  Proof.
+    intros chunks done rest H. unfold awriter in H.
+    change (ATrunc :: awrite_ops 0 chunks ++ [ARename]) with ((ATrunc :: awrite_ops 0 chunks) ++ [ARename]) in H.
+    set (w := ATrunc :: awrite_ops 0 chunks) in *.
+    assert (Hw : ~ In ARename w).
+    { unfold w. intros [Hx|Hx]; [discriminate|]. eapply no_rename_in_writes; eauto. }
+    clearbody w. revert done H Hw. induction w as [|x w IH]; intros done H Hw.
+    - destruct done as [|y done]; simpl in H.
+      + inversion H; auto.
+      + inversion H; subst. destruct done; discriminate.
+    - destruct done as [|y done]; simpl in H.
+      + inversion H; subst. exfalso. apply Hw. left. reflexivity.
+      + inversion H; subst. destruct (IH done H2) as [E1 E2].
+        * intros Hx. apply Hw. right. exact Hx.
+        * subst. split; reflexivity.
+  Qed.
+
+  Lemma astep_ok : forall t p t' p', proc_ok p -> target_ok t -> astep t p = (t', p') ->
+    proc_ok p' /\ target_ok t'.
+  Proof.
+    intros t [ops tmp] t' p' (chunks & done & Hc & Hw & Ht) Htg Hs. cbn [fst snd] in *.
+    destruct ops as [|[|off c|] r]; cbn [astep] in Hs; inversion Hs; subst.
+    - split; auto. exists chunks, done. auto.
+    - split; auto. exists chunks, (done ++ [ATrunc]). cbn [fst snd]. split; auto.
+      split; [rewrite <- app_assoc; exact Hw|]. right. rewrite run_temp_app. reflexivity.
+    - split; auto. exists chunks, (done ++ [AWrite off c]). cbn [fst snd]. split; auto.
+      split; [rewrite <- app_assoc; exact Hw|]. right.
+      destruct Ht as [->|Ht].
+      + (* the first syscall of a writer is the truncation *) unfold awriter in Hw. discriminate.
+      + rewrite run_temp_app, <- Ht. reflexivity.
+    - destruct (rename_has_all _ _ _ Hw) as [Hd Hr]. subst r.
+      assert (Htmp : tmp = F).
+      { destruct Ht as [->|Ht]; [discriminate|]. rewrite Ht, Hd. cbn [run_temp].
+        change 0 with (length (@nil N)). rewrite run_temp_writes. exact Hc. }
+      split.
+      + exists chunks, (done ++ [ARename]). cbn [fst snd]. split; auto.
+        split; [rewrite <- app_assoc; exact Hw|]. right. rewrite run_temp_app. cbn. destruct Ht as [->|Ht]; [discriminate|exact Ht].
+      + right. rewrite Htmp. reflexivity.
+  Qed.
+
+  Lemma astep_nth_ok : forall procs i t t' procs', Forall proc_ok procs -> target_ok t ->
+    astep_nth t procs i = (t', procs') -> Forall proc_ok procs' /\ target_ok t'.
+  Proof.
+    induction procs as [|p r IH]; intros i t t' procs' HF Ht Hs.
+    - simpl in Hs. inversion Hs; subst. auto.
+    - inversion HF as [|? ? Hp Hr]; subst. destruct i; simpl in Hs.
+      + destruct (astep t p) as [t1 p1] eqn:E. inversion Hs; subst.
+        destruct (astep_ok _ _ _ _ Hp Ht E). split; auto.
+      + destruct (astep_nth t r i) as [t1 r1] eqn:E. inversion Hs; subst.
+        destruct (IH _ _ _ _ Hr Ht E). split; auto.
+  Qed.
+
+  Lemma aobserved_ok : forall sched t procs, Forall proc_ok procs -> target_ok t ->
+    Forall target_ok (aobserved t procs sched).
+  Proof.
+    induction sched as [|i s IH]; intros t procs HF Ht; simpl; constructor; auto.
+    destruct (astep_nth t procs i) as [t' procs'] eqn:E.
+    destruct (astep_nth_ok _ _ _ _ _ HF Ht E). apply IH; auto.
+  Qed.
+
+  Lemma start_ok : forall p, is_atomic_save a p -> proc_ok p.
+  Proof. intros p (chunks & Hc & Hp). exists chunks, []. simpl. auto. Qed.
+
+  (* Any number of processes saving the same array atomically, each with ANY
+     number of write syscalls, under every schedule: a reader of the basis file
+     only ever sees what was there before (nothing, or the old complete file)
+     or the complete new file. *)
+  Theorem atomic_save_safe : forall procs sched t,
+    Forall (is_atomic_save a) procs -> In t (aobserved t0 procs sched) -> t = t0 \/ t = Some (serialize a).
+  Proof.
+    intros procs sched t HP Hin.
+    assert (HA : Forall proc_ok procs) by (eapply Forall_impl; [|exact HP]; apply start_ok).
+    pose proof (aobserved_ok sched t0 procs HA (or_introl eq_refl)) as HS.
+    rewrite Forall_forall in HS. exact (HS _ Hin).
+  Qed.
+End Atomic.
+
+(* so what np.load gets is an error-free parse of the saved array, or whatever
+   the old file gave *)
+Corollary atomic_save_read : forall a procs sched f,
+  wf_arr a -> hlen (shape a) / 256 < 256 ->
+  Forall (is_atomic_save a) procs -> In (Some f) (aobserved None procs sched) -> parse f = POk a.
+Proof.
+  intros a procs sched f Hwf Hh HP Hin.
+  destruct (atomic_save_safe a None procs sched _ HP Hin) as [E|E]; [discriminate|].
+  inversion E; subst. apply parse_serialize; auto.
+Qed.
+
+(* the three-write save of numpy is covered: header, bulk, tail as three chunks *)
+Example atomic_three_chunks : is_atomic_save wit_arr
+  (awriter [head_chunk (shape wit_arr); firstn 8 (data wit_arr); skipn 8 (data wit_arr)], []).
+Proof. exists [head_chunk (shape wit_arr); firstn 8 (data wit_arr); skipn 8 (data wit_arr)]. split; reflexivity. Qed.
